@@ -9,15 +9,14 @@ from vf.pcheck import run_p
 
 from .common import TRUSTED, generic_replay
 
-LEVEL = "exploration"
+LEVEL = "proof"  # the level actually reported follows run_p: "proof" only when obligations tagged with the property exist
 PROP = "C09"
 
 
 def run(report, tier, seed):
     report.trusted = list(TRUSTED) + ["os.fork of a process that imported apischema and never called it is a cold start"]
     res = run_p(report, PROP, tier)
-    if res:
-        report.level = "proof"
+    report.level = "proof" if res else "exploration"
     cache_hist.run(report, tier, seed)
 
 
